@@ -262,8 +262,7 @@ def r15_2_validators(ctx):
     rec = [c for c in q.calls_named(f.node, "compileTeal", into_nested=False)]
     ok = bool(withs) and len(rec) == 1 and any(a is withs[0] for a in q.ancestors(rec[0])) and isinstance(v.args[1], ast.Name) and any(isinstance(d, ast.Call) and u(d.func).endswith(".join") for d in q.assigns_to(f.node, u(v.args[1]))) and q.rtext(f.node, v.args[0]).startswith("compileTeal(self.ast, self.mode")
     ctx.check(ok, "R15.2", "_compile_impl:identity-check", "the program compiled without frames must be compared with the program compiled with frames, inside sourcemapping_off_context", f"{f.module.rel}:{v.lineno}", fact={})
-    kws = {k.arg: u(k.value) for k in rec[0].keywords} if rec else {}
-    ctx.check(kws == {"version": "self.version", "assembleConstants": "self.assemble_constants", "optimize": "self.optimize"}, "R15.2", "_compile_impl:same-options", f"the second compilation must use the same version / assembleConstants / optimize; it uses {kws}", f.where, fact=kws)
+    # (which settings the comparison compile is given is decided by R15.11, from the constructor and compileTeal themselves)
     rets = [r for r in q.returns_of(f.node) if r.lineno > v.lineno]
     ctx.check(len(rets) == 1 and not q.nguards(rets[0], ("branch",)), "R15.2", "_compile_impl:check-before-return", "the only return behind the source-map branch follows the identity check", f.where, fact={})
     sm = ctx.model.module("pyteal.compiler.sourcemap")
@@ -280,7 +279,7 @@ def r15_2_validators(ctx):
     tries = [n for n in walk_local(oc.node) if isinstance(n, ast.Try) and n.finalbody]
     fin = " ".join(u(s) for s in tries[0].finalbody) if tries else ""
     ctx.check(bool(tries) and "set_sourcemap_enabled(_sourcemap_before)" in fin and "set_sourcemap_debug(_sourcemap_debug_before)" in fin and any(isinstance(x, ast.Yield) for s in tries[0].body for x in ast.walk(s)), "R15.2", "sourcemapping_off_context:restores-in-finally", "both feature gates must be restored in a finally around the yield", oc.where, fact={})
-    ctx.require_min("R15.2", 7)
+    ctx.require_min("R15.2", 6)
 
 
 def r15_3_one_item_per_line(ctx):
@@ -472,6 +471,53 @@ def r15_10_router_results_pairing(ctx):
     ctx.require_min("R15.10", 10)
 
 
+def r15_11_recompile_with_own_settings(ctx):
+    ctx.rule("R15.11", "the program a source map is checked against is compiled with this compilation's own settings: the comparison compile inside Compilation._compile_impl forwards every constructor setting of the Compilation (each `self.<setting>`) to the compileTeal parameter that compileTeal hands to that same constructor parameter - a setting left out makes the two texts differ, i.e. asking for a map turns a valid compile into a failure")
+    cc = ctx.model.find_class("Compilation", "pyteal.compiler.compiler")
+    init = cc.methods["__init__"]
+    impl = cc.methods["_compile_impl"]
+    ct = ctx.model.find_func("compileTeal", "pyteal.compiler.compiler")
+    ctx.analysed(init.fq, impl.fq, ct.fq)
+
+    def params(fnode, skip_self):
+        a = fnode.args
+        pos = [x.arg for x in a.posonlyargs + a.args][1 if skip_self else 0:]
+        return pos, [x.arg for x in a.kwonlyargs]
+
+    def bind(call, fnode, skip_self):
+        pos, kwo = params(fnode, skip_self)
+        out = {}
+        for i, v in enumerate(call.args):
+            if i < len(pos):
+                out[pos[i]] = v
+        for k in call.keywords:
+            if k.arg:
+                out[k.arg] = k.value
+        return out
+
+    ctor_pos, ctor_kw = params(init.node, True)
+    stored = {}
+    for st in walk_local(init.node):
+        if isinstance(st, ast.Assign) and isinstance(st.value, ast.Name) and st.value.id in ctor_pos + ctor_kw:
+            for t in st.targets:
+                if isinstance(t, ast.Attribute) and u(t.value) == "self":
+                    stored[st.value.id] = t.attr
+    inner = q.one([c for c in q.calls_named(ct.node, "Compilation")], "compileTeal: the Compilation(...) construction")
+    fwd = {cp: v.id for cp, v in bind(inner, init.node, True).items() if isinstance(v, ast.Name)}  # ctor param -> compileTeal param
+    recompiles = [c for c in q.calls_named(impl.node, "compileTeal", into_nested=True)]
+    q.need(len(recompiles) == 1, f"{impl.fq}: {len(recompiles)} comparison compiles found, 1 expected")
+    got = bind(recompiles[0], ct.node, False)
+    for cp in ctor_pos + ctor_kw:
+        construct = f"recompile:{cp}"
+        if cp not in stored or cp not in fwd:
+            ctx.uncheck(f"Compilation setting `{cp}` is not stored / not forwarded by compileTeal by name")
+            continue
+        v = got.get(fwd[cp])
+        ok = v is not None and u(q.resolve_local(impl.node, v)) == f"self.{stored[cp]}"
+        ctx.check(ok, "R15.11", construct, f"the comparison compile passes {('`' + u(v) + '`') if v is not None else 'nothing'} for compileTeal's `{fwd[cp]}`; this compilation's own setting is `self.{stored[cp]}`, so with a non-default `{cp}` the two texts differ and a requested map fails the compile", f"{impl.module.rel}:{recompiles[0].lineno}", fact={"passed": u(v) if v is not None else None})
+    ctx.require_min("R15.11", 5)
+
+
 def run(ctx):
     r15_4_vlq(ctx)
     r15_5_r3_json(ctx)
@@ -485,6 +531,7 @@ def run(ctx):
     r15_8_no_shared_expression_objects(ctx)
     r15_9_frame_classification(ctx)
     r15_10_router_results_pairing(ctx)
+    r15_11_recompile_with_own_settings(ctx)
     from rules.lowering_sem import r15_7_relowering
 
     r15_7_relowering(ctx)
